@@ -212,6 +212,16 @@ def run(rep: Report, repo: Repo, tier: str) -> None:
         if isinstance(it, Block) and it.kind == "function" and it.head.args and it.head.args[0].text == "cminx_gen_rst":
             fn = it
     if fn is None:
+        mac = next((it for it in tree if isinstance(it, Block) and it.kind == "macro" and it.head.args
+                    and it.head.args[0].text == "cminx_gen_rst"), None)
+        if mac is not None:
+            rep.rule("C19-R2", "cminx_gen_rst is a function")
+            rep.bad("C19-R2", f"{FILE}:cminx_gen_rst", mac.head.text()[:80],
+                    "cminx_gen_rst is defined as a macro: macro arguments are replaced textually and evaluated a second time, so a "
+                    "backslash or a literal ${...} in an argument reaches CMinx changed (and the variables of the body leak into the "
+                    "caller) - the call no longer behaves like the equivalent command line",
+                    witness='cminx_gen_rst(dir out -e "\\[legacy\\]*") under cmake_minimum_required(VERSION 3.x)')
+            return
         raise AnalysisError("anchor vanished: function(cminx_gen_rst ...) in cmake/cminx.cmake")
     formals = [a.text for a in fn.head.args[1:]]
     where = f"{FILE}:cminx_gen_rst"
